@@ -444,6 +444,9 @@ fn fuzz_campaigns(id: &str, seed: u64, merged: &mut Report, infra: &mut Vec<Stri
             .arg(format!("-jobs={jobs}"))
             .arg(format!("-workers={jobs}"))
             .arg("-rss_limit_mb=4096")
+            // Leaks of the code under test are C10's subject (live-chunk counters); the harness itself
+            // leaks a few static buffers on purpose.
+            .arg("-detect_leaks=0")
             .arg(format!("-artifact_prefix={}/", artifacts.display()))
             .env("CARGO_NET_OFFLINE", "true")
             .env("VERIF_FUZZ_PROPERTY", id)
